@@ -252,6 +252,16 @@ func c06Directed() []C06Case {
 	add("application/json", "", nil)
 	add("application/json", "", func(c *C06Case) { c.Required = false })
 	add("application/json", `{"name":`, nil)
+	// schemas without any `type`: a read-only member is still a constraint (the schema is not the empty schema)
+	roBare := &GSchema{Props: map[string]*GSchema{"createdAt": {ReadOnly: true}, "n": {}}}
+	roWrap := &GSchema{HasTypes: true, Types: []string{"object"}, Props: map[string]*GSchema{"meta": roBare, "name": {HasTypes: true, Types: []string{"string"}}}}
+	roAllOf := &GSchema{AllOf: []*GSchema{{HasTypes: true, Types: []string{"object"}}, {Props: map[string]*GSchema{"createdAt": {ReadOnly: true}}}}}
+	for _, sc := range []*GSchema{roBare, roWrap, roAllOf} {
+		sc := sc
+		for _, body := range []string{`{"createdAt":"x"}`, `{"n":1}`, `{"meta":{"createdAt":"x"},"name":"n"}`, `{"meta":{"n":1}}`, `{}`} {
+			add("application/json", body, func(c *C06Case) { c.Content = map[string]*GSchema{"application/json": sc} })
+		}
+	}
 	add("application/json", `{"name":"n"}`, func(c *C06Case) { c.Content = nil })
 	add("application/json", `{"name":"n"}`, func(c *C06Case) { c.Content = map[string]*GSchema{} })
 	add("application/json", `{"name":"n"}`, func(c *C06Case) { c.Content = map[string]*GSchema{"application/*": obj} })
@@ -316,6 +326,12 @@ func init() {
 					meta.Histogram["oracle:"+sig]++
 					meta.GoViolation = append(meta.GoViolation, map[string]any{"signature": sig, "cases": []any{fc}, "go_observation": detail, "judgement": "form body on the Go side: " + sig + " " + detail})
 				}
+			}
+		}
+		if replay == "" {
+			meta.Histogram["form multipart transfer-encoded parts"]++
+			if sig, detail := runFormTransferEncoding(); sig != "" {
+				meta.GoViolation = append(meta.GoViolation, map[string]any{"signature": sig, "cases": []any{map[string]string{"body": "multipart/form-data with a quoted-printable part"}}, "go_observation": detail, "judgement": sig + " " + detail})
 			}
 		}
 		meta.NCases = len(cases)
